@@ -313,52 +313,38 @@ func oC13(ix *Index) []Violation {
 
 // ---------------------------------------------------------------- C15
 
-// oC15 replays the dispatcher on model queues. The model holds, per queue, the accepted jobs in
-// dispatch order, including jobs cancelled while pending: those stay in their queue (and count in
-// its length) until the dispatcher takes and drops them, which uses up that queue's turn.
+// oC15 checks every dispatch against the strategy's rule on model populations (the accepted jobs
+// of each queue that have not started, in dispatch order).
+//
+// Jobs cancelled while pending stay in their queue until the dispatcher takes and drops them. The
+// property does not say whether such a drop uses up the queue's round-robin turn, nor when it
+// happens, so the round-robin clause is liberal about them: the cursor may stand right after the
+// previously served queue or right after any queue that held a cancelled pending job, and a queue
+// counts as non-empty only through its live jobs. What is never allowed is to pass over a queue
+// that has a live pending job from every possible cursor position.
 func oC15(ix *Index) []Violation {
 	var out []Violation
 	nq := len(ix.QKinds)
 	model := make([][]*JobRec, nq)
 	inModel := map[int]bool{}
-	accAt := func(j *JobRec) int {
-		if j.Pre {
-			return -1
-		}
-		return j.Add.Ret
-	}
-	cancelledBefore := func(j *JobRec, pos int) (bool, bool) { // (certainly cancelled, uncertain)
+	cancelled := func(j *JobRec, pos int) bool {
 		for _, cl := range j.Closes {
 			if cl.Returned() && cl.RetEv.OK && cl.Ret < pos {
-				return true, false
-			}
-			if cl.Call < pos && cl.end(ix.N) > pos {
-				return false, true
+				return true
 			}
 		}
-		return false, false
+		return false
 	}
 	rr := 0
 	strat := ix.C.Cfg.Strategy
-	for pos, ev := range ix.H {
-		if ev.K != "enter" || ev.W != 0 {
-			continue
-		}
-		for _, c := range ix.Calls {
-			if (c.Op == "add" || c.Op == "addall" || c.Op == "close" || c.Op == "purge") && c.Call < pos && c.end(ix.N) > pos {
-				return out // a submission or cancellation is in progress: the model does not know the queues any more
-			}
-		}
-		// bring the model up to date: jobs accepted since the last dispatch, in queue order
+	names := []string{"round-robin", "max-len", "min-len"}
+	sync := func(pos int) {
 		for _, n := range ix.JobNums {
 			j := ix.Jobs[n]
 			if inModel[n] || j.Q < 0 || j.Q >= nq || j.Accepted != 1 || j.It == nil {
 				continue
 			}
-			if accAt(j) >= pos {
-				if n == ev.J {
-					return out // dispatched before its Add returned
-				}
+			if !j.Pre && (j.Add.Ret < 0 || j.Add.Ret >= pos) {
 				continue
 			}
 			inModel[n] = true
@@ -372,84 +358,97 @@ func oC15(ix *Index) []Violation {
 			l[i] = j
 			model[j.Q] = l
 		}
+	}
+	for pos, ev := range ix.H {
+		if ev.K != "enter" || ev.W != 0 {
+			continue
+		}
+		for _, c := range ix.Calls {
+			if (c.Op == "add" || c.Op == "addall" || c.Op == "close" || c.Op == "purge") && c.Call < pos && c.end(ix.N) > pos {
+				return out // a submission or cancellation is in progress: the model does not know the queues
+			}
+		}
 		a := ix.Jobs[ev.J]
-		// replay the dispatcher until it starts a job
-		for steps := 0; ; steps++ {
-			lens := make([]int, nq)
-			total := 0
-			for q := range model {
-				lens[q] = len(model[q])
-				total += lens[q]
+		if !(a.Pre || (a.Add.Ret >= 0 && a.Add.Ret < pos)) {
+			return out // dispatched before its Add returned
+		}
+		sync(pos)
+		live := make([]int, nq)  // pending jobs that can still run
+		ghost := make([]bool, nq) // the queue holds a cancelled pending job
+		all := make([]int, nq)
+		for q := range model {
+			for _, j := range model[q] {
+				all[q]++
+				if cancelled(j, pos) {
+					ghost[q] = true
+				} else {
+					live[q]++
+				}
 			}
-			if total == 0 || steps > 10000 {
-				out = append(out, v("C15", "phantom", "dispatch at %d started job %d but the model's queues are empty", pos, a.N))
-				return out
+		}
+		// the started job is the first live job of its queue
+		var head *JobRec
+		for _, j := range model[a.Q] {
+			if !cancelled(j, pos) {
+				head = j
+				break
 			}
-			want := -1
-			switch strat {
-			case 0:
+		}
+		if head != a {
+			if head == nil {
+				out = append(out, v("C15", "phantom", "dispatch at %d started job %d, which the model does not hold as pending in queue %d", pos, a.N, a.Q))
+			} else {
+				out = append(out, v("C15", "not-head", "dispatch at %d took job %d from queue %d although job %d is ahead of it", pos, a.N, a.Q, head.N))
+			}
+			return out
+		}
+		switch strat {
+		case 0:
+			starts := map[int]bool{rr: true}
+			for q := range ghost {
+				if ghost[q] {
+					starts[(q+1)%nq] = true
+				}
+			}
+			ok := false
+			var cands []int
+			for s0 := range starts {
 				for k := 0; k < nq; k++ {
-					if q := (rr + k) % nq; lens[q] > 0 {
-						want = q
+					if q := (s0 + k) % nq; live[q] > 0 {
+						cands = append(cands, q)
+						if q == a.Q {
+							ok = true
+						}
 						break
 					}
 				}
-			case 1:
-				for q := range lens {
-					if want < 0 || lens[q] > lens[want] {
-						want = q
-					}
-				}
-			case 2:
-				for q := range lens {
-					if lens[q] > 0 && (want < 0 || lens[q] < lens[want]) {
-						want = q
-					}
-				}
 			}
-			// several queues can tie for MaxLen/MinLen: any of them is allowed
-			ok := func(q int) bool {
-				switch strat {
-				case 1:
-					return lens[q] == lens[want]
-				case 2:
-					return lens[q] > 0 && lens[q] == lens[want]
-				}
-				return q == want
-			}
-			head := model[want][0]
-			if c, unsure := cancelledBefore(head, pos); unsure {
-				return out
-			} else if c && !(strat != 0 && ok(a.Q) && a.Q != want) {
-				// the dispatcher takes the cancelled job, drops it and tries again (round robin: the turn is used)
-				model[want] = model[want][1:]
-				if strat == 0 {
-					rr = (want + 1) % nq
-				}
-				continue
-			}
-			if !ok(a.Q) {
-				name := []string{"round-robin", "max-len", "min-len"}[strat]
-				out = append(out, v("C15", name, "dispatch at %d took job %d from queue %d; strategy %s with pending per queue %v (cursor %d, binding order %v) must take queue %d", pos, a.N, a.Q, name, lens, rr, ix.QKinds, want))
+			if !ok {
+				out = append(out, v("C15", "round-robin", "dispatch at %d took queue %d; with live pending jobs per queue %v (queues holding cancelled pending jobs: %v), binding order %v and the previous dispatch from queue %d, round robin must take one of %v", pos, a.Q, live, ghost, ix.QKinds, (rr+nq-1)%nq, cands))
 				return out
 			}
-			q := a.Q
-			if model[q][0] != a {
-				if c, _ := cancelledBefore(model[q][0], pos); c {
-					model[q] = model[q][1:]
-					if strat == 0 {
-						rr = (q + 1) % nq
-					}
-					continue
+			rr = (a.Q + 1) % nq
+		default:
+			// lengths include cancelled pending jobs only if the queue still holds them, which is not
+			// observable: a queue's length lies between its live and its total count
+			for q := range live {
+				if strat == 1 && live[q] > all[a.Q] {
+					out = append(out, v("C15", names[strat], "dispatch at %d took queue %d with at most %d pending although queue %d has at least %d (live %v, total %v)", pos, a.Q, all[a.Q], q, live[q], live, all))
+					return out
 				}
-				out = append(out, v("C15", "not-head", "dispatch at %d took job %d from queue %d although job %d is ahead of it", pos, a.N, q, model[q][0].N))
-				return out
+				if strat == 2 && all[q] > 0 && live[q] > 0 && all[q] < live[a.Q] {
+					out = append(out, v("C15", names[strat], "dispatch at %d took queue %d with at least %d pending although queue %d has only %d (live %v, total %v)", pos, a.Q, live[a.Q], q, all[q], live, all))
+					return out
+				}
 			}
-			model[q] = model[q][1:]
-			if strat == 0 {
-				rr = (q + 1) % nq
+		}
+		// the started job and the cancelled jobs ahead of it have left the queue
+		l := model[a.Q]
+		for i, j := range l {
+			if j == a {
+				model[a.Q] = append([]*JobRec(nil), l[i+1:]...)
+				break
 			}
-			break
 		}
 	}
 	return out
